@@ -138,6 +138,11 @@ func (c *RegConfig) ParseOrResolveBlocklisted(provided string) (string, bool) {
 	if err != nil {
 		return "", false
 	}
+	if host == "" {
+		// ":80" and "[]:80" split without error and "resolve" to an empty address that matches
+		// no blocklist; dialing the resulting ":80" would connect to the station itself.
+		return "", false
+	}
 	if c.isBlocklistedCovertDomain(host) {
 		return "", false
 	}
